@@ -178,6 +178,9 @@ func c1Grammar(c *Ctx, rule string) {
 						if b, ok := constBytes(args[1]); ok {
 							return tokenOfBytes(b)
 						}
+						if b, ok := constBytes(resolve(st, args[1])); ok {
+							return tokenOfBytes(b) // a constant that came back from a helper
+						}
 						d := st.Desc(args[1])
 						src := resolve(st, args[1])
 						switch {
